@@ -5,7 +5,15 @@
 #    VERIF_REPO=<worktree> while the patch is applied there; restores the worktree's src afterwards.
 set -u
 wt="$1"; patch="$2"; demo="$3"; prop="$4"; ev="${5:-$(cd "$(dirname "$0")/.." && pwd)}"
-"$(dirname "$0")/seeded_confirm.sh" "$wt" "$patch" "$demo"
+conf=$("$(dirname "$0")/seeded_confirm.sh" "$wt" "$patch" "$demo" 2>&1)
+echo "$conf"
+# one-line verdict of the confirmation: demo red with, suite green with, demo green without
+red=$(echo "$conf" | sed -n '/demo WITH patch/,/suite WITH patch/p' | grep -c "^test result: FAILED")
+green=$(echo "$conf" | sed -n '/suite WITH patch/,/demo WITHOUT patch/p' | grep -c "^test result: ok")
+bad=$(echo "$conf" | sed -n '/suite WITH patch/,/demo WITHOUT patch/p' | grep -c "FAILED\|panicked")
+wo=$(echo "$conf" | sed -n '/demo WITHOUT patch/,$p' | grep -c "^test result: ok")
+wobad=$(echo "$conf" | sed -n '/demo WITHOUT patch/,$p' | grep -c "FAILED")
+if [ "$red" -ge 1 ] && [ "$green" -ge 3 ] && [ "$bad" -eq 0 ] && [ "$wo" -ge 1 ] && [ "$wobad" -eq 0 ]; then echo "CONFIRM ok"; else echo "CONFIRM NOT-OK red=$red green=$green bad=$bad wo=$wo wobad=$wobad"; fi
 cd "$wt" && git checkout -q -- src && git apply "$patch" || { echo "patch does not apply"; exit 2; }
 cd "$ev"
 for s in 1 7; do
